@@ -44,9 +44,17 @@ RULE = (
     'full product; all sequences of length 2 and 3 over a reduced '
     'per-threshold alphabet (write: 5 kinds x {n=0, body=T, body=T+1} + 2 '
     'keep-alives; read: 7-8 letters mixing known/unknown ids, compressed/'
-    'uncompressed, padded, frame-like payloads; quick tier: length 3 over '
-    'the first six of them); all sequences of length 1-3 '
-    'over 3-4 tiny letters (unknown ids, 2-5 byte frames) and over 3-4 mixed '
+    'uncompressed, padded, frame-like payloads, three DIFFERENT unknown '
+    'ids 0x7D/0x80/0x1234, two keep-alive ids, two plugin payloads; quick '
+    'tier: length 3 over the first six of them, which keep the three '
+    'unknown ids, so U K U / K U U / U U U with different ids occur under '
+    'every configuration); all sequences of length 2-3 over a 10-letter '
+    'IDENTITY alphabet (four unknown ids, three keep-alive ids, three '
+    'plugin-message payloads; segmentations: whole, 1-byte and 3-byte reads '
+    'in the quick tier, the full light set in the thorough tier); all '
+    'sequences of length 1-3 '
+    'over 3-4 tiny letters (unknown ids 0x7D, 0x80, 0x1234, 2-4 byte '
+    'frames) and over 3-4 mixed '
     'letters (keep-alive, plugin message, compressed plugin message): the '
     'CORE streams.  READ SEGMENTATIONS per stream of L bytes: whole; uniform '
     'chunk sizes 1..8 (streams over 4 KiB: a subset, each pass is O(L^2)); '
@@ -68,7 +76,11 @@ RULE = (
     '(configuration, sequence, segmentation) read; executions are distinct '
     'by construction (streams de-duplicated by configuration and letters, '
     'segmentations by cut set); the two un-segmented reads of a stream are '
-    'counted as trivial.')
+    'counted as trivial.  Read oracle per execution: each returned packet '
+    'is judged right after its read_packet call (class, id, fields, raw '
+    'stream offset = frame end) AND all returned objects are kept and '
+    'judged again after the final None (class, id, every field), and no two '
+    'frames may have yielded the same object.')
 ASSUMPTIONS = [
     'refproto.framing / refproto.cfb8 (self-tested against hand-made frames '
     'and the NIST CFB8 vector) define the wire format',
@@ -532,23 +544,16 @@ class Stream(object):
                 f = raw
             reactor = m[reactor](self.conn)
             start = 0
-            for i, (end, cls, pid, fields) in enumerate(self.expected):
+            got = []
+            for i, exp in enumerate(self.expected):
+                end = exp[0]
                 p = reactor.read_packet(f, 0)
                 if p is None:
                     return ('read_packet %d returned None although %d bytes '
                             'were still undelivered' % (i, self.L - raw.pos))
-                if type(p) is not cls:
-                    return ('packet %d: got %r (raw stream at %d), expected '
-                            'a %s with id 0x%X'
-                            % (i, p, raw.pos, cls.__name__, pid))
-                if p.id != pid:
-                    return ('packet %d: id 0x%X, expected 0x%X'
-                            % (i, p.id, pid))
-                for k, v in fields:
-                    got = getattr(p, k, Horizon)
-                    if got != v or type(got) is not type(v):
-                        return ('packet %d (%s): field %s = %s, expected %s'
-                                % (i, cls.__name__, k, _val(got), _val(v)))
+                what = _judge(p, i, exp, raw.pos)
+                if what:
+                    return what
                 if raw.pos != end:
                     return ('packet %d (frame at %d..%d): after read_packet '
                             'the raw stream is at offset %d, so %d byte(s) %s'
@@ -557,12 +562,35 @@ class Stream(object):
                                if raw.pos > end else
                                'of this frame were left in the stream'))
                 start = end
+                got.append(p)
             p = reactor.read_packet(f, 0)
             if p is not None:
-                return ('an extra packet %r was produced after the %d that '
-                        'were sent' % (p, len(self.expected)))
+                return ('an extra packet %s was produced after the %d that '
+                        'were sent' % (_desc(p), len(self.expected)))
             if raw.pos != self.L:
                 return 'stream not consumed: at %d of %d' % (raw.pos, self.L)
+            # what a consumer that KEEPS the packets holds at the end: every
+            # frame its own object, each still saying what was sent
+            for i in range(len(got)):
+                for j in range(i):
+                    if got[i] is got[j]:
+                        return ('packets %d and %d are one and the same '
+                                'object (%s): the reader handed out the '
+                                'object of frame %d again for frame %d, so a '
+                                'listener that keeps what it received holds '
+                                '%d packets for %d frames'
+                                % (j, i, _desc(got[i]), j, i,
+                                   len(set(map(id, got))), len(got)))
+            for i, exp in enumerate(self.expected):
+                what = _judge(got[i], i, exp, raw.pos)
+                if what:
+                    return ('after the whole sequence had been read, the '
+                            'packet returned for frame %d no longer says '
+                            'what was sent: %s; ids kept by a collecting '
+                            'consumer: %s, sent: %s'
+                            % (i, what,
+                               [_id(g) for g in got],
+                               ['0x%X' % e[2] for e in self.expected]))
         except Horizon:
             return ('the reader spins: more than %d raw reads on a %d byte '
                     'stream' % (raw.limit, self.L))
@@ -583,7 +611,7 @@ class Stream(object):
 
     def segmentations(self, mode, thorough):
         """Yields (class label, cuts) without repetition.
-        mode: 'light' | 'pairs' | 'core'."""
+        mode: 'min' | 'light' | 'pairs' | 'core'."""
         L = self.L
         seen = set()
 
@@ -610,10 +638,14 @@ class Stream(object):
                 ks = range(1, 9) if main else (1, 7)
             else:
                 ks = (1, 5) if main else (7,)
+        if mode == 'min':
+            ks = (1, 3)
         for k in ks:
             r = emit('uniform', tuple(range(k, L, k)))
             if r:
                 yield r
+        if mode == 'min':
+            return
         one_all = 4096 if thorough else 128
         if L <= one_all:
             ones = range(1, L)
@@ -639,6 +671,34 @@ class Stream(object):
             r = emit('2-cut (structural offsets)', (a, b))
             if r:
                 yield r
+
+
+def _desc(p):
+    """never repr() a packet: Packet.__repr__ runs pyCraft code."""
+    return '<%s object, id %s>' % (type(p).__name__, _id(p))
+
+
+def _id(p):
+    try:
+        return '0x%X' % p.id
+    except Exception as e:
+        return repr(e)
+
+
+def _judge(p, i, exp, pos):
+    """class, id and every field of one returned packet -> None or text."""
+    end, cls, pid, fields = exp
+    if type(p) is not cls:
+        return ('packet %d: got %s (raw stream at %d), expected a %s with id '
+                '0x%X' % (i, _desc(p), pos, cls.__name__, pid))
+    if p.id != pid:
+        return 'packet %d: id 0x%X, expected 0x%X' % (i, p.id, pid)
+    for k, v in fields:
+        got = getattr(p, k, Horizon)
+        if got != v or type(got) is not type(v):
+            return ('packet %d (%s): field %s = %s, expected %s'
+                    % (i, cls.__name__, k, _val(got), _val(v)))
+    return None
 
 
 def _val(v):
@@ -799,20 +859,32 @@ def read_alphabet(T):
     if T is None:
         return [('cpm', 0, 'c', 'v'), ('cpm', 20, 'r', 'p1'),
                 ('cka', 0, 'z', 'v'), ('u1', 0, 'c', 'v'),
-                ('u1', 12, 'f', 'p2'), ('u3', 30, 'f', 'v'),
+                ('u2', 12, 'f', 'p2'), ('u3', 30, 'f', 'v'),
+                ('cka', 1, 'z', 'p1'),
                 ('cchat', 5, 'c', 'v')]       # [:6] for quick length 3
     big = edge('cpm', T)[-1]
     return [('cpm', 0, 'c', 'v'), ('cpm', max(big, 3), 'r', 'C'),
             ('cka', 0, 'z', 'v'), ('u1', 0, 'c', 'v'),
-            ('u1', 12, 'f', 'U'), ('u3', 30, 'f', 'Cp1'),
+            ('u2', 12, 'f', 'U'), ('u3', 30, 'f', 'Cp1'),
             ('cka', 1, 'z', 'C1'), ('cchat', 5, 'c', 'p1')]
 
 
 def tiny_alphabet(T):
-    al = [('u1', 0, 'c', 'v'), ('u1', 1, 'c', 'v'), ('u3', 1, 'c', 'v')]
+    # three DIFFERENT unknown ids: 0x7D, 0x80, 0x1234
+    al = [('u1', 0, 'c', 'v'), ('u2', 0, 'c', 'v'), ('u3', 0, 'c', 'v')]
     if T is not None:
         al.append(('u1', 0, 'c', 'C'))
     return al
+
+
+def identity_alphabet(T):
+    """letters that differ in id / field values within one class: four
+    unknown ids, three keep-alive ids, three plugin-message payloads."""
+    c = 'v' if T is None else 'C'
+    return [('u1', 0, 'c', 'v'), ('u2', 1, 'c', 'v'), ('u3', 2, 'c', c),
+            ('u4', 0, 'c', 'v'), ('cka', 0, 'z', 'v'), ('cka', 1, 'z', 'v'),
+            ('cka', 2, 'z', c if T is not None else 'p1'),
+            ('cpm', 0, 'c', 'v'), ('cpm', 1, 'c', 'v'), ('cpm', 3, 'r', c)]
 
 
 def mixed_alphabet(T, thorough):
@@ -832,7 +904,7 @@ def sequences(al, lengths):
             yield tuple(seq)
 
 
-MODE_RANK = {'light': 0, 'pairs': 1, 'core': 2}
+MODE_RANK = {'min': 0, 'light': 1, 'pairs': 2, 'core': 3}
 
 
 def read_plan(T, seed, thorough):
@@ -851,6 +923,8 @@ def read_plan(T, seed, thorough):
         al = al[:6]
     for seq in sequences(al, (3,)):
         add(seq, 'pairs' if thorough else 'light')
+    for seq in sequences(identity_alphabet(T), (2, 3)):
+        add(seq, 'light' if thorough else 'min')
     for seq in sequences(tiny_alphabet(T), (1, 2, 3)):
         add(seq, 'core')
     for seq in sequences(mixed_alphabet(T, thorough), (1, 2, 3)):
@@ -883,6 +957,8 @@ def _weight(letters, mode):
     n = sum(body_len(l[0], l[1]) + 3 for l in letters)
     if mode == 'core':
         return 40 + min(n, 80) ** 2 // 2
+    if mode == 'min':
+        return 6
     return 20 + min(n, 300) + n // 64
 
 
